@@ -149,6 +149,10 @@ func comparePrereleaseIdentifiers(a, b string) int {
 
 // tryParseInt attempts to parse a string as an integer
 func tryParseInt(s string) (int, bool) {
+	// Numeric identifiers consist of digits only; a sign makes the identifier alphanumeric
+	if strings.TrimLeft(s, "0123456789") != "" {
+		return 0, false
+	}
 	num, err := strconv.Atoi(s)
 	return num, err == nil
 }
